@@ -142,6 +142,7 @@ func runSpecs(c *Ctx, specs []*Spec) *Result {
 			share = 2 * time.Second
 		}
 		s.Deadline = time.Now().Add(share)
+		s.KF = c.KF
 		st, f := Explore(s, c.KF)
 		res.Runs = append(res.Runs, st)
 		if f != nil {
